@@ -62,8 +62,8 @@ META = {
         "Log(Exp x) = x below π: SO3 on all of [0, π] with the STATED DEVIATION that for cos(θ/2) ≤ eps (θ within π·eps of π) "
         "model and code return x·π/θ ≠ x, off by π−θ ≤ π·eps (so3_log_exp_near_pi); rotation and log-scale blocks of "
         "se3/rxso3/sim3 are those of so3 (log_exp_rot_blocks); the translation block is proved for zero rotation, on the band "
-        "π·eps<θ<π(1−eps), and on se3 for every θ ≤ eps (se3_log_exp_small: ‖τ'−τ‖ ≤ θ^4‖τ‖/26); sim3 near 0 and both near π are measured "
-        "by the logexp stream only. Uniqueness in the principal ball: on the open shell "
+        "π·eps<θ<π(1−eps), on se3 for every θ ≤ eps (se3_log_exp_small: ‖τ'−τ‖ ≤ θ^4‖τ‖/26) and on sim3 for every θ ≤ eps and every σ "
+        "(sim3_log_exp_small: ‖τ'−τ‖ ≤ θ^5‖τ‖/17, log-scale exact); near π (se3, sim3) it is measured by the logexp stream only. Uniqueness in the principal ball: on the open shell "
         "eps<‖x‖<π only (x = 0 and the Taylor branch excluded), SO3_log_unique in regime 1 only",
         "within 8 ulp (of the dtype) of an odd multiple of π the sign of w = cos(θ/2) is decided by rounding: there Log(Exp x) is "
         "checked as a transformation (Exp(Log(Exp x)) = Exp(x)), and the clause 'angle below π' is applied 4 ulp away from π",
